@@ -16,7 +16,16 @@ impl<'a> Interp<'a> {
         match kk {
             k::BClone => {
                 tr!(self, "s{} = s{}.clone()", j, i);
-                let (r, d) = call(|| b.clone());
+                // (every fourth time through Clone::clone_from into a fresh empty handle)
+                let (r, d) = if op.a % 4 == 3 {
+                    call(|| {
+                        let mut c = Bytes::new();
+                        c.clone_from(&b);
+                        c
+                    })
+                } else {
+                    call(|| b.clone())
+                };
                 match r {
                     Ok(c) => {
                         let ok = len == 0 || (c.as_ptr() as usize == p && b.as_ptr() as usize == p);
@@ -247,6 +256,11 @@ impl<'a> Interp<'a> {
             k::MSplitOff => call(|| b.split_off(at)),
             k::MSplitTo => call(|| b.split_to(at)),
             k::MSplit => call(|| b.split()),
+            _ if op.b % 4 == 3 => call(|| {
+                let mut c = BytesMut::new();
+                c.clone_from(&b);
+                c
+            }),
             _ => call(|| b.clone()),
         };
         match r {
@@ -488,7 +502,9 @@ impl<'a> Interp<'a> {
             k::MPutU8 => data = vec![op.b as u8],
             k::MWriteStr => {
                 let n = sel_size(op.a).min(4096);
-                data = content(op.c, n).iter().map(|b| b & 0x7f).collect();
+                // valid UTF-8 with some multi-byte characters (write_char / write_fmt see them one char at a time)
+                let s: String = content(op.c, n).iter().map(|b| if b & 0xC0 == 0xC0 { ['\u{e9}', '\u{20ac}', '\u{1f600}', '\u{df}'][(b & 3) as usize] } else { (b & 0x7f) as char }).collect();
+                data = s.into_bytes();
             }
             k::MPutBuf | k::MExtendBytes => {
                 let n = sel_size(op.a).min(4096);
@@ -541,10 +557,10 @@ impl<'a> Interp<'a> {
             k::MWriteStr => call(|| {
                 use std::fmt::Write;
                 let st = std::str::from_utf8(dref).unwrap();
-                if op.b % 2 == 1 {
-                    write!(b, "{}", st).unwrap()
-                } else {
-                    b.write_str(st).unwrap()
+                match op.b % 3 {
+                    1 => write!(b, "{}", st).unwrap(),
+                    2 => st.chars().for_each(|c| b.write_char(c).unwrap()),
+                    _ => b.write_str(st).unwrap(),
                 }
             }),
             k::MExtendIter => match op.b % 4 {
